@@ -11,7 +11,7 @@ MODE = 'expandg'
 MARKUP_ABBRS = ['ul>li.item$*3', 'a', 'div.b_m>p.-e', 'p{${foo}}', 'ul>li*', '(', 'a{', 'div>p*2>span', 'lorem-', 'x.a.b', '!', 'table>tr>td', '[', 'input:t', 'p{$#}', '.b>.-e_m', 'ul>li[title=$#]*',
                 'btn', 'h$[t=$$]*2', 'em>b', 'div#a.b', 'form:post', 'br', 'img', 'cc:ie', 'p>{a}+{b}', 'lorem-box', 'ul>lorem_item*2', 'lorem5x>b', 'x-badge>.count', 'em>.a', 'div>em>.a', 'my-el>.k+[t]',
                 'a[title=$#]*', 'p>{$#}', 'section>p']
-CSS_ABBRS = ['p10', 'm10-20', 'foo', 'bar', 'w100p', 'c#f', 'pos:a', 'bd1-s', 'lh1.5', 'foo5', 'z10', '(', 'p$', 'fl', 'd:n', 'op.5', 'lg(to right, #0, #f.5)', 'bar2', 'trf:r']
+CSS_ABBRS = ['p10', 'm10-20', 'foo', 'bar', 'w100p', 'c#f', 'pos:a', 'bd1-s', 'lh1.5', 'foo5', 'z10', '(', 'p$', 'fl', 'd:n', 'op.5', 'lg(to right, #0, #f.5)', 'bar2', 'trf:r', 'trf:s(2)', 'trf:scale', 'trf:s', 'trf:t(1, 2)', 'trf:t', 'p10r', 'w5p']
 NESTED_BAD = {'snippets': {'menu': 'nav>item', 'item': 'li[title="]', 'box': 'div>menu'}}          # resolving `item` raises a parse error in the middle of nested resolution
 NESTED_OK = {'snippets': {'menu': 'nav>item', 'item': 'li[title=""]', 'box': 'div>menu'}}
 CSS_NEST = {'type': 'stylesheet', 'snippets': {'bgz': 'background-zoom:zigzag|zebra', 'posx': 'position-x:stuck|floaty'}}      # user properties that nest under built-in ones
@@ -181,6 +181,8 @@ def run(case, prop):
     from emmet.scanner import ScannerException
     from emmet.token_scanner import TokenScannerException
     viol = []
+    import dom_expand
+    dom_expand.hostile_environment()
     cfgs = [mk(c) for c in case['cfgs']]
     snap = copy.deepcopy(case['cfgs'])
     objs = [Config(c) if ob else c for c, ob in zip(cfgs, case['as_object'])]
